@@ -12,14 +12,16 @@ TurboSHAKE128(M, D, L) is the uninterpreted sponge stream spec.hashprim.keccak_s
 
 SIG = {
     # verbatim: the smallest non-negative integer n such that x < 256**n
-    'enc_n0': {'sort': 'int', 'uf': True,
+    # (not 'uf': the proof of _length_encode lists enc_n0 as opaque and uses ONLY these facts; the body serves the native replay)
+    'enc_n0': {'sort': 'int',
                'facts': ['x >= 0 ==> (result >= 0 and x < pow2(8 * result) and (result == 0 or x >= pow2(8 * (result - 1))))']},
     'length_encode': 'bytes', 'short_input': 'bytes', 'final_trailer': 'bytes', 'divider': 'bytes',
 }
 
 
 def enc_n0(x):
-    pass
+    """executable form for concrete x (replay only): x < 256**n  <=>  8n >= bit_length(x)"""
+    return (x.bit_length() + 7) // 8
 
 
 def length_encode(x):
